@@ -16,6 +16,31 @@ CHECKS = {
             "Bounds d<=4, lmin<=2, lmax-lmin<=3, depth per configuration (see evidence.bounds_completed). Reference model "
             "mc/refmodels/indexset.py is trusted.",
             "explicit-state BFS over real transition function, reference-model lock-step"),
+    "C03": ("DESIGN.md 2/C03",
+            "Explicit-state BFS over refinement-decision histories of the real dimension-wise strategy (scripted ErrorCalculator, "
+            "real adaptive loop/refine): every state reachable by <=D steps with <=s intervals chosen per step, for all coarsening "
+            "versions, rebalancing and boundary flags; 1D-list laws, per-point coefficient sums and reproduction of all nodal unit "
+            "functions checked in every state.",
+            "Bounds d<=3, D<=2..4, s<=2, domain [0,1]^d; canonical form = intervals+levels+coarsening, lmax, index sets.",
+            "explicit-state BFS over decision histories replayed on the real objects"),
+    "C04": ("DESIGN.md 2/C04",
+            "BFS over refinement histories of the dimension-wise, extend-split and cell strategies with a basis of the claimed "
+            "exactness space carried as extra integrand components (exact integrals/interpolants compared in every state), plus "
+            "complete runs with the library's own estimator on a menu of refinement-driving integrands checked at every evaluation.",
+            "Bounds d<=3, D<=2..3, s<=2; float-exact boxes; tolerance 1e-11. Known finding: rebalancing rotation loses the initial space.",
+            "explicit-state BFS over decision histories, basis-function oracle"),
+    "C06": ("DESIGN.md 2/C06",
+            "BFS over histories of benefit assignments (ties, zeros, values exactly at / just below the margin) on the real dimension-wise "
+            "strategy; tiling, level agreement, tree law, coarsening/lmax relations and the independent margin-selection rule "
+            "checked after every refine().",
+            "Bounds d<=3, D<=2..4, margins {0.5,0.9,1.0}, safety factors {0,0.1,0.5}.",
+            "explicit-state BFS over benefit-assignment histories"),
+    "C07": ("DESIGN.md 2/C07",
+            "BFS over decision histories of the real extend-split strategy (areas refined, extend/split in automatic mode, split "
+            "dimensions in single-dimension mode) for versions 0-2; tiling, point assignment, local coefficient sums and local "
+            "reproduction of unit functions checked in every state.",
+            "Bounds d<=3, D<=2..3, s<=2, domain [0,1]^d.",
+            "explicit-state BFS over decision histories replayed on the real objects"),
 }
 
 NOT_YET = "check not built yet in this session; planned (see DESIGN.md section 2)"
